@@ -265,6 +265,12 @@ func (os *optimisticState) waitForRPCs() {
 	rpcCount := len(os.peerStates)
 	os.peerStatesLk.RUnlock()
 
+	// Nothing was scheduled (e.g. the lookup found no peer, or was cancelled
+	// before it learned one): there is no RPC to wait for.
+	if rpcCount == 0 {
+		return
+	}
+
 	// returnThreshold can't be larger than the total number issued RPCs
 	if os.returnThreshold > rpcCount {
 		os.returnThreshold = rpcCount
